@@ -42,13 +42,13 @@ def load_ndjson(path):
     return out
 
 
-def gen(module, cfg, workers=4, timeout=1500):
+def gen(module, cfg, workers=4, timeout=1500, heap="2g"):
     """Run a Gen_* configuration; returns (TLCResult, records)."""
     os.makedirs(SCR, exist_ok=True)
     out = os.path.join(SCR, "%s_%d_%d.ndjson" % (cfg.replace(".cfg", ""), os.getpid(), uniq()))
     if os.path.exists(out):
         os.remove(out)
-    r = tlc.run(module, cfg, env={"GEN_OUT": out}, timeout=timeout, workers=workers)
+    r = tlc.run(module, cfg, env={"GEN_OUT": out}, timeout=timeout, workers=workers, heap=heap)
     recs = load_ndjson(out) if os.path.exists(out) else []
     if os.path.exists(out):
         os.remove(out)
@@ -63,7 +63,7 @@ def parallel(jobs):
         return {k: f.result() for k, f in futs.items()}
 
 
-def validate(module, events, chk=None, name=None, batch=400, par=4, timeout=1500):
+def validate(module, events, chk=None, name=None, batch=400, par=4, timeout=1500, heap="2g"):
     """trace_util.validate with unique file names and `par` TLC processes side
     by side (one batch each).  Returns (rejected [(event, failed)], n)."""
     os.makedirs(SCR, exist_ok=True)
@@ -79,7 +79,7 @@ def validate(module, events, chk=None, name=None, batch=400, par=4, timeout=1500
             os.remove(vf)
         try:
             r = tlc.run(module, module + ".cfg", workers=1, env={"TRACE_FILE": tf, "VERDICT_FILE": vf},
-                        timeout=timeout, deadlock=True)
+                        timeout=timeout, deadlock=True, heap=heap)
             rej, summary = [], None
             if os.path.exists(vf):
                 for v in load_ndjson(vf):
@@ -97,7 +97,7 @@ def validate(module, events, chk=None, name=None, batch=400, par=4, timeout=1500
                     os.remove(p)
 
     rejected, done = [], 0
-    with cf.ThreadPoolExecutor(max_workers=max(1, par)) as ex:
+    with cf.ThreadPoolExecutor(max_workers=max(1, min(par, 8))) as ex:
         for i, (r, rej) in enumerate(ex.map(one, parts)):
             if chk is not None:
                 chk.add_tlc("trace:%s[batch %d, %d events]" % (name or module, i, len(parts[i])), r)
